@@ -59,12 +59,15 @@ def corpus(tier):
     out.append(('memory', c05.flavour_batch()))
     # bulk memory operations incl. overlapping memory.copy in both directions (depth-2 histories), store/store/load sequences inside one function
     out.append(('memory-bulk', c05.history_batch((1, 3), 2, 400000)))
+    shared = c05.history_batch((1, 3, True), 2, 400000)
+    shared.need_threads = True          # a shared memory: the runtime header needs a threads implementation
+    out.append(('memory-shared', shared))
     allpairs = [(a, b) for a in sorted(STORES) for b in sorted(STORES)]
     out.append(('memory-sequences', c05.sequence_batch(allpairs[::4] if tier == 'quick' else allpairs)))
     # control flow inside fixed contexts (dead code followed by live code, operands below value-carrying blocks)
     Sm, pm, lm, rm = enum_cf.sigma_mid()
     for cname, pre, suf in enum_cf.contexts():
-        for b in c03.batches_of('cf-ctx', Sm, pm, [], rm, 2 if tier == 'quick' else 3, in_ii, [('env', 'mark', 'i', 'i')], False, (pre, suf)):
+        for b in c03.batches_of('cf-ctx', Sm, pm, [], rm, 3 if tier == 'quick' else 4, in_ii, [('env', 'mark', 'i', 'i')], False, (pre, suf)):
             out.append(('cf-ctx', b))
     for cfg in (('defined', 'overlap', 'defined', 2, 'defined'), ('imported', 'passive+active', 'imported', 1, 'imported'), ('none', 'none', 'none', 0, 'none')):
         out.append(('instantiate', c06.config_module(*cfg)))
@@ -84,6 +87,9 @@ def main(tier):
             kw = {'cc': cc, 'cflags': ('-O0',) + link, 'mod_cflags': flags, 'timeout': 1800}
             if getattr(b, 'main', None) == 'bfs':
                 kw['drv_args'] = (b.bfs_depth, 1500)
+            if getattr(b, 'need_threads', False):
+                kw['defines'] = ('-DWASM_THREADS_PTHREADS',)
+                kw['cflags'] = kw['cflags'] + ('-pthread',)
             jobs.append((label, b, cc, flags, kw))
     # (i) only: names that need escaping inside C string literals / identifiers
     njobs = []
